@@ -1,60 +1,19 @@
-(** Model of core/src/scheduler.rs ([Scheduler]): ready queue = one handle of the ordered
-    work-steal queue (model [Queue.OWS]), suspend heap, syscall map + syscall-suspend heap, the
-    process-global cancel set, [do_schedule]/[check_ready]/[try_resume]. Coroutines are the
-    instruction-list coroutines of [Coroutine.Co] (unit parameter and yield, numeric result);
-    a coroutine's id is its submission index. *)
+(** Model of core/src/scheduler.rs ([Scheduler]): [do_schedule] / [check_ready] / [try_resume]
+    over the suspend heap, the syscall map and the syscall-suspend heap. The scheduling logic is
+    written once, generically over the "world" [X] that holds the coroutines, the clock, the
+    (process-global) ready queue and the (process-global) cancel set, because the same logic
+    drives plain coroutines (this file, [sched]) and pool workers (Sched/Pool.v). *)
 From OCV Require Import Base.Prelude Misc.Time Queue.PMap Queue.OWS Coroutine.Co.
 Open Scope Z_scope.
 
-Record sched := {
-  sc_thr : thr;                      (* the coroutines, the clock, the request deques *)
-  sc_q : sys;                        (* ready queue (handle 0 of the shared coroutine queue) *)
-  sc_prio : list Z;                  (* priority of coroutine i (None = 0) *)
-  sc_suspend : list (Z * nat);       (* suspend heap: (wake-up time, coroutine), insertion order *)
-  sc_syscall : list nat;             (* syscall map keys *)
-  sc_sys_suspend : list (Z * nat);   (* syscall-suspend heap *)
-  sc_cancel : list nat;              (* CANCEL_COROUTINES *)
-  sc_gone : list nat                 (* coroutines dropped by a cancel or an error *)
+(** the containers a [Scheduler] owns *)
+Record sdata := {
+  sd_suspend : list (Z * nat);       (* suspend heap: (wake-up time, coroutine), insertion order *)
+  sd_syscall : list nat;             (* syscall map keys *)
+  sd_sys_suspend : list (Z * nat);   (* syscall-suspend heap *)
+  sd_gone : list nat                 (* coroutines dropped by a cancel or an error *)
 }.
-
-Definition ready_cap : Z := 256.
-
-Definition sched0 (clock : Z) (nl : nat) : sched :=
-  {| sc_thr := mk_thr clock [] nl;
-     sc_q := fst (new_handle (OWS.init 1 ready_cap));
-     sc_prio := []; sc_suspend := []; sc_syscall := []; sc_sys_suspend := []; sc_cancel := []; sc_gone := [] |}.
-
-Definition with_thr (s : sched) (t : thr) : sched :=
-  {| sc_thr := t; sc_q := sc_q s; sc_prio := sc_prio s; sc_suspend := sc_suspend s; sc_syscall := sc_syscall s;
-     sc_sys_suspend := sc_sys_suspend s; sc_cancel := sc_cancel s; sc_gone := sc_gone s |}.
-Definition with_q (s : sched) (q : sys) : sched :=
-  {| sc_thr := sc_thr s; sc_q := q; sc_prio := sc_prio s; sc_suspend := sc_suspend s; sc_syscall := sc_syscall s;
-     sc_sys_suspend := sc_sys_suspend s; sc_cancel := sc_cancel s; sc_gone := sc_gone s |}.
-
-Definition prio_of (s : sched) (i : nat) : Z := nth i (sc_prio s) 0.
-
-(** [self.ready.push(co)] *)
-Definition ready_push (s : sched) (i : nat) : sched :=
-  with_q s (fst (lpush (sc_q s) 0 (prio_of s i) (Z.of_nat i))).
-
-(** [self.ready.pop()] *)
-Definition ready_pop (s : sched) : sched * option nat :=
-  match lpop (sc_q s) 0 0 with
-  | (q, OItem (Some x)) => (with_q s q, Some (Z.to_nat x))
-  | (q, _) => (with_q s q, None)
-  end.
-
-(** [submit_raw_co] *)
-Definition submit (s : sched) (body : list instr) (prio : option Z) : sched :=
-  let t := sc_thr s in
-  let i := length (t_cos t) in
-  let t' := {| t_clock := t_clock t; t_ts := t_ts t; t_cn := t_cn t;
-               t_cos := t_cos t ++ [{| c_st := Ready; c_body := body; c_started := false; c_dead := false |}];
-               t_nl := t_nl t |} in
-  let s1 := {| sc_thr := t'; sc_q := sc_q s; sc_prio := sc_prio s ++ [match prio with Some p => p | None => 0 end];
-               sc_suspend := sc_suspend s; sc_syscall := sc_syscall s; sc_sys_suspend := sc_sys_suspend s;
-               sc_cancel := sc_cancel s; sc_gone := sc_gone s |} in
-  ready_push s1 i.
+Definition sdata0 : sdata := {| sd_suspend := []; sd_syscall := []; sd_sys_suspend := []; sd_gone := [] |}.
 
 (** heaps: pop an entry with the smallest time (the earliest inserted among equals; the order
     the real [BinaryHeap] yields equal keys in is not fixed, histories keep keys distinct) *)
@@ -78,162 +37,211 @@ Definition mem_nat (i : nat) (l : list nat) : bool := existsb (Nat.eqb i) l.
 Fixpoint remove_nat (i : nat) (l : list nat) : list nat :=
   match l with [] => [] | j :: r => if Nat.eqb i j then r else j :: remove_nat i r end.
 
-Inductive cres := COk (s : sched) (acc : list ev) | CErr (s : sched) (acc : list ev) | CPanic (s : sched) (acc : list ev).   (* check_ready: Ok / Err / unreachable!() *)
-
-(** coroutine [i].ready() from the suspend heap; [None] = Err *)
-Definition co_ready (s : sched) (i : nat) : option (sched * list ev) :=
-  match nth_error (t_cos (sc_thr s)) i with
-  | None => None
-  | Some c =>
-      match tr_ready (t_clock (sc_thr s)) (c_st c) with
-      | Some (Some new) => let '(t', e) := apply_change (sc_thr s) i c new in Some (with_thr s t', e)
-      | Some None => Some (s, [])
-      | None => None
-      end
-  end.
-
-(** first loop of [check_ready]: move every due entry of the suspend heap to the ready queue *)
-Fixpoint check_suspend (fuel : nat) (s : sched) (acc : list ev) : cres :=
-  match fuel with
-  | O => COk s acc
-  | S f =>
-      match heap_min (sc_suspend s) with
-      | None => COk s acc
-      | Some (ts, i) =>
-          if t_clock (sc_thr s) <? ts then COk s acc
-          else
-            let s1 := {| sc_thr := sc_thr s; sc_q := sc_q s; sc_prio := sc_prio s;
-                         sc_suspend := heap_remove (ts, i) (sc_suspend s); sc_syscall := sc_syscall s;
-                         sc_sys_suspend := sc_sys_suspend s; sc_cancel := sc_cancel s; sc_gone := sc_gone s |} in
-            match co_ready s1 i with
-            | None => CErr s1 acc  (* ready()? failed: the item (and its coroutine) is dropped, Err returned *)
-            | Some (s2, e) => check_suspend f (ready_push s2 i) (acc ++ e)
-            end
-      end
-  end.
-
-(** second loop: syscall-suspend entries that are due time out *)
-Fixpoint check_sys (fuel : nat) (s : sched) (acc : list ev) : cres :=
-  match fuel with
-  | O => COk s acc
-  | S f =>
-      match heap_min (sc_sys_suspend s) with
-      | None => COk s acc
-      | Some (ts, i) =>
-          if t_clock (sc_thr s) <? ts then COk s acc
-          else
-            let s1 := {| sc_thr := sc_thr s; sc_q := sc_q s; sc_prio := sc_prio s; sc_suspend := sc_suspend s;
-                         sc_syscall := sc_syscall s; sc_sys_suspend := heap_remove (ts, i) (sc_sys_suspend s);
-                         sc_cancel := sc_cancel s; sc_gone := sc_gone s |} in
-            if mem_nat i (sc_syscall s1) then
-              let s2 := {| sc_thr := sc_thr s1; sc_q := sc_q s1; sc_prio := sc_prio s1; sc_suspend := sc_suspend s1;
-                           sc_syscall := remove_nat i (sc_syscall s1); sc_sys_suspend := sc_sys_suspend s1;
-                           sc_cancel := sc_cancel s1; sc_gone := sc_gone s1 |} in
-              match nth_error (t_cos (sc_thr s2)) i with
-              | Some c =>
-                  match c_st c with
-                  | Syscall y n (SSuspend _) =>
-                      let '(t', e) := apply_change (sc_thr s2) i c (Syscall y n STimeout) in
-                      check_sys f (ready_push (with_thr s2 t') i) (acc ++ e)
-                  | _ => CPanic s2 acc   (* unreachable!() in the source: a panic *)
-                  end
-              | None => CPanic s2 acc
-              end
-            else check_sys f s1 acc
-      end
-  end.
-
-Definition check_ready (s : sched) (acc : list ev) : cres :=
-  match check_suspend (S (length (sc_suspend s))) s acc with
-  | COk s1 acc1 => check_sys (S (length (sc_sys_suspend s1))) s1 acc1
-  | r => r
-  end.
-
 Inductive pass_res :=
 | PassOk (left : Z) (results : list (nat * res))   (* results: ROk (Complete v) / ROk (Error m) per id *)
 | PassErr
 | PassUnwound
 | PassDiverged.
 
-(** [do_schedule] *)
-Fixpoint do_schedule (fuel : nat) (s : sched) (deadline : Z) (results : list (nat * res)) (acc : list ev)
-  : sched * pass_res * list ev :=
-  match fuel with
-  | O => (s, PassDiverged, acc)
-  | S f =>
-      let left := sat_sub deadline (t_clock (sc_thr s)) in
-      if left =? 0 then (s, PassOk 0 results, acc)
-      else
-        match check_ready s acc with
-        | CErr s1 acc1 => (s1, PassErr, acc1)
-        | CPanic s1 acc1 => (s1, PassUnwound, acc1)
-        | COk s1 acc1 =>
-            match ready_pop s1 with
-            | (s2, None) => (s2, PassOk left results, acc1)
-            | (s2, Some i) =>
-                if mem_nat i (sc_cancel s2) then
-                  let s3 := {| sc_thr := sc_thr s2; sc_q := sc_q s2; sc_prio := sc_prio s2; sc_suspend := sc_suspend s2;
-                               sc_syscall := sc_syscall s2; sc_sys_suspend := sc_sys_suspend s2;
-                               sc_cancel := remove_nat i (sc_cancel s2); sc_gone := i :: sc_gone s2 |} in
-                  do_schedule f s3 deadline results acc1
-                else
-                  (* the unit parameter is not observable; the model passes the clock so that the body's
-                     start/got events carry the time of the resumption *)
-                  let '(t', r, e) := resume (sc_thr s2) i (t_clock (sc_thr s2)) in
-                  let s3 := with_thr s2 t' in
-                  let acc2 := acc1 ++ e in
-                  match r with
-                  | ROk (Syscall _ _ st) =>
-                      let s4 := {| sc_thr := sc_thr s3; sc_q := sc_q s3; sc_prio := sc_prio s3; sc_suspend := sc_suspend s3;
-                                   sc_syscall := if mem_nat i (sc_syscall s3) then sc_syscall s3 else i :: sc_syscall s3;
-                                   sc_sys_suspend := match st with
-                                                     | SSuspend ts => sc_sys_suspend s3 ++ [(ts, i)]
-                                                     | _ => sc_sys_suspend s3
-                                                     end;
-                                   sc_cancel := sc_cancel s3; sc_gone := sc_gone s3 |} in
-                      do_schedule f s4 deadline results acc2
-                  | ROk (Suspend _ ts) =>
-                      if t_clock (sc_thr s3) <? ts then
-                        let s4 := {| sc_thr := sc_thr s3; sc_q := sc_q s3; sc_prio := sc_prio s3;
-                                     sc_suspend := sc_suspend s3 ++ [(ts, i)]; sc_syscall := sc_syscall s3;
-                                     sc_sys_suspend := sc_sys_suspend s3; sc_cancel := sc_cancel s3; sc_gone := sc_gone s3 |} in
-                        do_schedule f s4 deadline results acc2
-                      else do_schedule f (ready_push s3 i) deadline results acc2
-                  | ROk Cancelled => do_schedule f s3 deadline results acc2
-                  | ROk (Complete v) => do_schedule f s3 deadline (results ++ [(i, ROk (Complete v))]) acc2
-                  | ROk (Error m) => do_schedule f s3 deadline (results ++ [(i, ROk (Error m))]) acc2
-                  | _ =>
-                      (* resume()? failed or an unexpected state: the coroutine is dropped, Err returned *)
-                      ({| sc_thr := sc_thr s3; sc_q := sc_q s3; sc_prio := sc_prio s3; sc_suspend := sc_suspend s3;
-                          sc_syscall := sc_syscall s3; sc_sys_suspend := sc_sys_suspend s3; sc_cancel := sc_cancel s3;
-                          sc_gone := i :: sc_gone s3 |}, PassErr, acc2)
-                  end
-            end
+Section Generic.
+  Variable X : Type.
+  Variable x_clock : X -> Z.
+  Variable x_state : X -> nat -> option cstate.           (* state of coroutine i *)
+  Variable x_change : X -> nat -> cstate -> X * list ev.   (* change_state + callbacks *)
+  Variable x_resume : X -> nat -> X * res * list ev.       (* coroutine.resume() *)
+  Variable x_push : X -> nat -> X.                         (* self.ready.push(co) *)
+  Variable x_pop : X -> X * option nat.                    (* self.ready.pop() *)
+  Variable x_cancelled : X -> nat -> bool.                 (* CANCEL_COROUTINES.contains *)
+  Variable x_uncancel : X -> nat -> X.                     (* CANCEL_COROUTINES.remove *)
+
+  Inductive cres := COk (x : X) (d : sdata) (acc : list ev) | CErr (x : X) (d : sdata) (acc : list ev)
+                  | CPanic (x : X) (d : sdata) (acc : list ev).
+
+  (** coroutine [i].ready() for an entry leaving the suspend heap; [None] = Err *)
+  Definition co_ready (x : X) (i : nat) : option (X * list ev) :=
+    match x_state x i with
+    | None => None
+    | Some s =>
+        match tr_ready (x_clock x) s with
+        | Some (Some new) => Some (x_change x i new)
+        | Some None => Some (x, [])
+        | None => None
         end
+    end.
+
+  (** first loop of [check_ready]: move every due entry of the suspend heap to the ready queue *)
+  Fixpoint check_suspend (fuel : nat) (x : X) (d : sdata) (acc : list ev) : cres :=
+    match fuel with
+    | O => COk x d acc
+    | S f =>
+        match heap_min (sd_suspend d) with
+        | None => COk x d acc
+        | Some (ts, i) =>
+            if x_clock x <? ts then COk x d acc
+            else
+              let d1 := {| sd_suspend := heap_remove (ts, i) (sd_suspend d); sd_syscall := sd_syscall d;
+                           sd_sys_suspend := sd_sys_suspend d; sd_gone := sd_gone d |} in
+              match co_ready x i with
+              | None => CErr x d1 acc   (* ready()? failed: the item (and its coroutine) is dropped *)
+              | Some (x2, e) => check_suspend f (x_push x2 i) d1 (acc ++ e)
+              end
+        end
+    end.
+
+  (** second loop: syscall-suspend entries that are due time out *)
+  Fixpoint check_sys (fuel : nat) (x : X) (d : sdata) (acc : list ev) : cres :=
+    match fuel with
+    | O => COk x d acc
+    | S f =>
+        match heap_min (sd_sys_suspend d) with
+        | None => COk x d acc
+        | Some (ts, i) =>
+            if x_clock x <? ts then COk x d acc
+            else
+              let d1 := {| sd_suspend := sd_suspend d; sd_syscall := sd_syscall d;
+                           sd_sys_suspend := heap_remove (ts, i) (sd_sys_suspend d); sd_gone := sd_gone d |} in
+              if mem_nat i (sd_syscall d1) then
+                let d2 := {| sd_suspend := sd_suspend d1; sd_syscall := remove_nat i (sd_syscall d1);
+                             sd_sys_suspend := sd_sys_suspend d1; sd_gone := sd_gone d1 |} in
+                match x_state x i with
+                | Some (Syscall y n (SSuspend _)) =>
+                    let '(x', e) := x_change x i (Syscall y n STimeout) in
+                    check_sys f (x_push x' i) d2 (acc ++ e)
+                | _ => CPanic x d2 acc     (* unreachable!() in the source: a panic *)
+                end
+              else check_sys f x d1 acc
+        end
+    end.
+
+  Definition check_ready (x : X) (d : sdata) (acc : list ev) : cres :=
+    match check_suspend (S (length (sd_suspend d))) x d acc with
+    | COk x1 d1 acc1 => check_sys (S (length (sd_sys_suspend d1))) x1 d1 acc1
+    | r => r
+    end.
+
+  (** [do_schedule] *)
+  Fixpoint do_schedule (fuel : nat) (x : X) (d : sdata) (deadline : Z) (results : list (nat * res))
+           (acc : list ev) : X * sdata * pass_res * list ev :=
+    match fuel with
+    | O => (x, d, PassDiverged, acc)
+    | S f =>
+        let lft := sat_sub deadline (x_clock x) in
+        if lft =? 0 then (x, d, PassOk 0 results, acc)
+        else
+          match check_ready x d acc with
+          | CErr x1 d1 acc1 => (x1, d1, PassErr, acc1)
+          | CPanic x1 d1 acc1 => (x1, d1, PassUnwound, acc1)
+          | COk x1 d1 acc1 =>
+              match x_pop x1 with
+              | (x2, None) => (x2, d1, PassOk lft results, acc1)
+              | (x2, Some i) =>
+                  if x_cancelled x2 i then
+                    let d2 := {| sd_suspend := sd_suspend d1; sd_syscall := sd_syscall d1;
+                                 sd_sys_suspend := sd_sys_suspend d1; sd_gone := i :: sd_gone d1 |} in
+                    do_schedule f (x_uncancel x2 i) d2 deadline results acc1
+                  else
+                    let '(x3, r, e) := x_resume x2 i in
+                    let acc2 := acc1 ++ e in
+                    match r with
+                    | ROk (Syscall _ _ st) =>
+                        let d2 := {| sd_suspend := sd_suspend d1;
+                                     sd_syscall := if mem_nat i (sd_syscall d1) then sd_syscall d1 else i :: sd_syscall d1;
+                                     sd_sys_suspend := match st with
+                                                       | SSuspend ts => sd_sys_suspend d1 ++ [(ts, i)]
+                                                       | _ => sd_sys_suspend d1
+                                                       end;
+                                     sd_gone := sd_gone d1 |} in
+                        do_schedule f x3 d2 deadline results acc2
+                    | ROk (Suspend _ ts) =>
+                        if x_clock x3 <? ts then
+                          let d2 := {| sd_suspend := sd_suspend d1 ++ [(ts, i)]; sd_syscall := sd_syscall d1;
+                                       sd_sys_suspend := sd_sys_suspend d1; sd_gone := sd_gone d1 |} in
+                          do_schedule f x3 d2 deadline results acc2
+                        else do_schedule f (x_push x3 i) d1 deadline results acc2
+                    | ROk Cancelled => do_schedule f x3 d1 deadline results acc2
+                    | ROk (Complete v) => do_schedule f x3 d1 deadline (results ++ [(i, ROk (Complete v))]) acc2
+                    | ROk (Error m) => do_schedule f x3 d1 deadline (results ++ [(i, ROk (Error m))]) acc2
+                    | _ =>
+                        (* resume()? failed or an unexpected state: the coroutine is dropped, Err returned *)
+                        (x3, {| sd_suspend := sd_suspend d1; sd_syscall := sd_syscall d1;
+                                sd_sys_suspend := sd_sys_suspend d1; sd_gone := i :: sd_gone d1 |}, PassErr, acc2)
+                    end
+              end
+          end
+    end.
+
+  (** [try_resume(co_id)] *)
+  Definition try_resume (x : X) (d : sdata) (i : nat) : X * sdata * res * list ev :=
+    if mem_nat i (sd_syscall d) then
+      let d1 := {| sd_suspend := sd_suspend d; sd_syscall := remove_nat i (sd_syscall d);
+                   sd_sys_suspend := sd_sys_suspend d; sd_gone := sd_gone d |} in
+      match x_state x i with
+      | Some (Syscall y n (SSuspend _)) =>
+          let '(x', e) := x_change x i (Syscall y n SCallback) in
+          (x_push x' i, d1, RUnit, e)
+      | _ => (x, d1, RUnwound, [])     (* unreachable!(): the coroutine was taken out of the map and is lost *)
+      end
+    else (x, d, RUnit, []).
+End Generic.
+
+(** * The stand-alone scheduler: plain instruction-list coroutines *)
+
+Record world := {
+  w_thr : thr;          (* the coroutines, the clock, the request deques *)
+  w_q : sys;            (* ready queue: handle 0 of the shared coroutine queue *)
+  w_prio : list Z;      (* priority of coroutine i (None = 0) *)
+  w_cancel : list nat   (* CANCEL_COROUTINES *)
+}.
+
+Definition ready_cap : Z := 256.
+
+Definition w_clock (w : world) : Z := t_clock (w_thr w).
+Definition w_state (w : world) (i : nat) : option cstate := option_map c_st (nth_error (t_cos (w_thr w)) i).
+Definition with_thr (w : world) (t : thr) : world :=
+  {| w_thr := t; w_q := w_q w; w_prio := w_prio w; w_cancel := w_cancel w |}.
+Definition w_change (w : world) (i : nat) (new : cstate) : world * list ev :=
+  match nth_error (t_cos (w_thr w)) i with
+  | Some c => let '(t', e) := apply_change (w_thr w) i c new in (with_thr w t', e)
+  | None => (w, [])
   end.
+(** the unit parameter is not observable; the model passes the clock so that the body's
+    start/got events carry the time of the resumption *)
+Definition w_resume (w : world) (i : nat) : world * res * list ev :=
+  let '(t', r, e) := resume (w_thr w) i (t_clock (w_thr w)) in (with_thr w t', r, e).
+Definition prio_of (w : world) (i : nat) : Z := nth i (w_prio w) 0.
+Definition w_push (w : world) (i : nat) : world :=
+  {| w_thr := w_thr w; w_q := fst (lpush (w_q w) 0 (prio_of w i) (Z.of_nat i)); w_prio := w_prio w; w_cancel := w_cancel w |}.
+Definition w_pop (w : world) : world * option nat :=
+  match lpop (w_q w) 0 0 with
+  | (q, OItem (Some x)) => ({| w_thr := w_thr w; w_q := q; w_prio := w_prio w; w_cancel := w_cancel w |}, Some (Z.to_nat x))
+  | (q, _) => ({| w_thr := w_thr w; w_q := q; w_prio := w_prio w; w_cancel := w_cancel w |}, None)
+  end.
+Definition w_cancelled (w : world) (i : nat) : bool := mem_nat i (w_cancel w).
+Definition w_uncancel (w : world) (i : nat) : world :=
+  {| w_thr := w_thr w; w_q := w_q w; w_prio := w_prio w; w_cancel := remove_nat i (w_cancel w) |}.
+
+Record sched := { sc_w : world; sc_d : sdata }.
+
+Definition sched0 (clock : Z) (nl : nat) : sched :=
+  {| sc_w := {| w_thr := mk_thr clock [] nl; w_q := fst (new_handle (OWS.init 1 ready_cap)); w_prio := []; w_cancel := [] |};
+     sc_d := sdata0 |}.
+
+(** [submit_raw_co] *)
+Definition submit (s : sched) (body : list instr) (prio : option Z) : sched :=
+  let w := sc_w s in
+  let t := w_thr w in
+  let i := length (t_cos t) in
+  let t' := {| t_clock := t_clock t; t_ts := t_ts t; t_cn := t_cn t;
+               t_cos := t_cos t ++ [{| c_st := Ready; c_body := body; c_started := false; c_dead := false |}];
+               t_nl := t_nl t |} in
+  let w1 := {| w_thr := t'; w_q := w_q w; w_prio := w_prio w ++ [match prio with Some p => p | None => 0 end];
+               w_cancel := w_cancel w |} in
+  {| sc_w := w_push w1 i; sc_d := sc_d s |}.
 
 (** an upper bound on the number of loop iterations of one pass: every iteration pops a
     coroutine, and a popped coroutine is dropped or executes at least one instruction or ends *)
 Definition pass_fuel (s : sched) : nat :=
-  S (fold_right Nat.add O (map (fun c => S (S (length (c_body c)))) (t_cos (sc_thr s)))).
-
-(** [try_resume(co_id)] *)
-Definition try_resume (s : sched) (i : nat) : sched * res * list ev :=
-  if mem_nat i (sc_syscall s) then
-    let s1 := {| sc_thr := sc_thr s; sc_q := sc_q s; sc_prio := sc_prio s; sc_suspend := sc_suspend s;
-                 sc_syscall := remove_nat i (sc_syscall s); sc_sys_suspend := sc_sys_suspend s;
-                 sc_cancel := sc_cancel s; sc_gone := sc_gone s |} in
-    match nth_error (t_cos (sc_thr s1)) i with
-    | Some c =>
-        match c_st c with
-        | Syscall y n (SSuspend _) =>
-            let '(t', e) := apply_change (sc_thr s1) i c (Syscall y n SCallback) in
-            (ready_push (with_thr s1 t') i, RUnit, e)
-        | _ => (s1, RUnwound, [])     (* unreachable!(): the coroutine was taken out of the map and is lost *)
-        end
-    | None => (s1, RUnwound, [])
-    end
-  else (s, RUnit, []).
+  S (fold_right Nat.add O (map (fun c => S (S (length (c_body c)))) (t_cos (w_thr (sc_w s))))).
 
 Inductive sop :=
 | Submit (body : list instr) (prio : option Z)
@@ -251,13 +259,19 @@ Definition sstep (s : sched) (o : sop) : sched * sobs :=
   match o with
   | Submit body prio => (submit s body prio, SUnit)
   | Pass deadline =>
-      let '(s', r, e) := do_schedule (pass_fuel s) s deadline [] [] in (s', SPass r e)
-  | TryResume i => let '(s', r, e) := try_resume s i in (s', SCall r e)
+      let '(w', d', r, e) :=
+        do_schedule world w_clock w_state w_change w_resume w_push w_pop w_cancelled w_uncancel
+                    (pass_fuel s) (sc_w s) (sc_d s) deadline [] [] in
+      ({| sc_w := w'; sc_d := d' |}, SPass r e)
+  | TryResume i =>
+      let '(w', d', r, e) := try_resume world w_state w_change w_push (sc_w s) (sc_d s) i in
+      ({| sc_w := w'; sc_d := d' |}, SCall r e)
   | Cancel i =>
-      ({| sc_thr := sc_thr s; sc_q := sc_q s; sc_prio := sc_prio s; sc_suspend := sc_suspend s;
-          sc_syscall := sc_syscall s; sc_sys_suspend := sc_sys_suspend s;
-          sc_cancel := if mem_nat i (sc_cancel s) then sc_cancel s else i :: sc_cancel s; sc_gone := sc_gone s |}, SUnit)
-  | Clock c => (with_thr s (upd_clock (sc_thr s) c), SUnit)
+      let w := sc_w s in
+      ({| sc_w := {| w_thr := w_thr w; w_q := w_q w; w_prio := w_prio w;
+                     w_cancel := if mem_nat i (w_cancel w) then w_cancel w else i :: w_cancel w |};
+          sc_d := sc_d s |}, SUnit)
+  | Clock c => ({| sc_w := with_thr (sc_w s) (upd_clock (w_thr (sc_w s)) c); sc_d := sc_d s |}, SUnit)
   end.
 
 Fixpoint srun (s : sched) (ops : list sop) : list sobs :=
